@@ -3,6 +3,7 @@ import Driver.OpsBind
 import XsdataModel.Dict.Encode
 import XsdataModel.Dict.Decode
 import XsdataModel.Dict.EncodeFlags
+import XsdataModel.Dict.Frag
 open Lean Proto Py Xs.Bind Xs.Dict
 
 namespace OpsDict
@@ -81,6 +82,15 @@ partial def dDV (j : Json) : Except String DV :=
 
 def run (op : String) (a : Json) : Option (Except String Json) :=
   match op with
+  | "dict.valok" => some do
+      -- the hypothesis of `dict_rt` evaluated on an exported universe and instance
+      let Γ ← dCtx (field a "ctx")
+      let v ← dVal (field a "value")
+      let fac ← dFactory (field a "factory")
+      let c ← dStr (field a "clazz")
+      pure <| ok (jObj [("in_fragment", jBool (valOKj benv Γ fac fuel c v)),
+                        ("typed", jBool (valOKu benv Γ fac fuel c v)),
+                        ("no_subclass_pools", jBool (noSubclassPools Γ))])
   | "dict.encflags" => some do
       let fac ← dFactory (field a "factory")
       let wrapper ← OpsBind.dOptStr (field a "wrapper")
